@@ -62,7 +62,8 @@ def case(draw, tier):
     if kind == "genpair":
         a = draw(st.integers(0, 10))
         b = draw(st.integers(0, 10 - a))
-        wl = {"ticks_per_second": draw(st.sampled_from([10, 100, 3, 1000])), "random_seed": draw(st.integers(0, 2 ** 31 - 2)),
+        wl = {"ticks_per_second": draw(st.sampled_from([10, 100, 3, 1000])), "random_seed": draw(st.one_of(st.integers(0, 2 ** 31 - 2), st.integers(0, 2 ** 31 - 2),
+                                                                                               st.sampled_from([2 ** 53, 2 ** 62, 2 ** 53 + 2, 2 ** 63 - 5, 2 ** 40 + 1]))),
               "waiting_seconds_mean": draw(st.sampled_from([1.0, 0.5, 2.5])), "num_pipelines": draw(st.integers(1, 5)),
               "num_operators": draw(st.integers(1, 8)), "cpu_io_ratio": draw(st.sampled_from([0.5, 0.0, 1.0])),
               "interactive_prob": a / 10, "query_prob": b / 10, "batch_prob": (10 - a - b) / 10}
